@@ -14,7 +14,19 @@ from sa.interp import Interp
 from sa.values import ADict, AList, Unk, concrete, is_concrete
 
 
-def header(os_, on, ms, mn, ctx=None, counts=True):
+class _EmptyOrNone(object):
+    """Expected context of a header that ends in '@@ ' with nothing after the space."""
+    def __eq__(self, other):
+        return other is None or other == b''
+
+    def __ne__(self, other):
+        return not self.__eq__(other)
+
+    def __repr__(self):
+        return "b'' (or None)"
+
+
+def header(os_, on, ms, mn, ctx=None, counts=True, trail=False):
     if counts:
         t = b'@@ -%d,%d +%d,%d @@' % (os_, on, ms, mn)
     else:
@@ -22,6 +34,9 @@ def header(os_, on, ms, mn, ctx=None, counts=True):
         on = mn = 1
     if ctx:
         t += b' ' + ctx
+    elif trail:
+        t += b' '
+        ctx = _EmptyOrNone()
     return ('H', os_, on, ms, mn, ctx, t)
 
 
@@ -139,6 +154,8 @@ def scripts(tier):
             out.append([header(os_, on, ms, mn)] + [('B',)] * k)
     out.append([header(4, 1, 4, 1, counts=False), ('B',), ('B',)])
     out.append([header(4, 1, 4, 1, ctx=b'def f():'), ('B',), ('B',)])
+    out.append([header(4, 1, 4, 1, trail=True), ('B',), ('B',)])
+    out.append([header(4, 1, 4, 1, ctx=b' '), ('B',), ('B',)])
     # garbage before / between / after hunks, second hunks
     out.append([('B',), header(2, 1, 2, 1), ('B',), ('B',)])
     out.append([header(2, 1, 2, 1), ('B',), ('B',), ('B',)])
@@ -253,6 +270,6 @@ def first_difference(got, exp, path='result'):
             if d:
                 return d
         return None
-    if got != exp:
+    if exp != got:
         return (path, repr(got), repr(exp))
     return None
